@@ -194,12 +194,18 @@ class BodyMixin:
         body = self.body
         markup: MultipartMarkup = body.ombott_markup
         if markup is None:
-            # should never happen since we check content-type
-            # when reading body
-            raise BodyParsingError()
+            # multipart content type without a usable boundary parameter
+            self._raise(BodyParsingError(), RequestError)
         elif markup.error is not None:
-            raise markup.error
+            self._raise(markup.error, RequestError)
         listified = set()
+        try:
+            self._collect_fields(body, markup, post, forms, files, listified)
+        except RequestError as err:
+            self._raise(err, RequestError)
+        return post
+
+    def _collect_fields(self, body, markup, post, forms, files, listified):
         for item in FieldStorage.iter_items(body, markup.markups, self.config.max_memfile_size):
             if item.filename:
                 it = FileUpload(
@@ -223,7 +229,6 @@ class BodyMixin:
                     el.append(it)
                 else:
                     target[key] = it
-        return post
 
     @cache_in('environ[ ombott.request.forms ]', read_only=True)
     def forms(self):
@@ -248,9 +253,9 @@ class BodyMixin:
     def _body(self):
         markup = None
         mp = MULTIPART_BOUNDARY_PATT.match(self.environ.get('CONTENT_TYPE', ''))
-        if mp is not None:
-            markup = MultipartMarkup(mp.group(1))
         try:
+            if mp is not None:
+                markup = MultipartMarkup(mp.group(1))
             body = _body_read(
                 self.environ['wsgi.input'].read,
                 self.config.max_memfile_size,
